@@ -7,13 +7,14 @@ import (
 	"encoding/json"
 	"fmt"
 	"runtime"
+	"sort"
 	"sync"
 	"sync/atomic"
 	"testing"
 	"time"
 )
 
-func mdConfig(c *mdCluster, ver string) *Config {
+func mdConfig(c *mdCluster, ver string, retryMax int) *Config {
 	conf := NewConfig()
 	switch ver {
 	case "v5":
@@ -24,7 +25,7 @@ func mdConfig(c *mdCluster, ver string) *Config {
 		conf.Version = V0_8_2_0
 	}
 	conf.Metadata.RefreshFrequency = 0
-	conf.Metadata.Retry.Max = 1
+	conf.Metadata.Retry.Max = retryMax
 	conf.Metadata.Retry.Backoff = 0
 	conf.Metadata.Full = true
 	conf.Net.DialTimeout = 3 * time.Second
@@ -48,6 +49,51 @@ func mdModes(step *mdStep) (map[string]int, []string) {
 		names = append(names, name)
 	}
 	return m, names
+}
+
+// mdPeek reads (only) the candidate lists of the client: endpoint names of the live seeds in
+// order, and of the registered brokers.
+func mdPeek(c *mdCluster, cl Client) (live, known []string) {
+	live, known = []string{}, []string{}
+	x, ok := cl.(*client)
+	if !ok {
+		return
+	}
+	x.lock.RLock()
+	defer x.lock.RUnlock()
+	name := func(b *Broker) string {
+		if n, ok := c.byAddr[b.Addr()]; ok {
+			return n
+		}
+		return "?" + b.Addr()
+	}
+	for _, b := range x.seedBrokers {
+		live = append(live, name(b))
+	}
+	for _, b := range x.brokers {
+		known = append(known, name(b))
+	}
+	sort.Strings(known)
+	return
+}
+
+func mdSwapSeeds(step *mdStep) *mdStep {
+	sw := func(s string) string {
+		switch s {
+		case "s1":
+			return "s2"
+		case "s2":
+			return "s1"
+		}
+		return s
+	}
+	n := *step
+	n.Down = nil
+	for _, d := range step.Down {
+		n.Down = append(n.Down, sw(d))
+	}
+	n.Head, n.Hold = sw(step.Head), sw(step.Hold)
+	return &n
 }
 
 type mdConcRead struct {
@@ -112,15 +158,29 @@ func mdRunCase(c *mdCluster, idx int, mc *mdCase, ver string, st *mdStats) (even
 		allUp := map[string]int{}
 		c.setModes(allUp)
 	}()
-	conf := mdConfig(c, ver)
+	retryMax := 1
+	if mc.Retry != nil {
+		retryMax = *mc.Retry
+	}
+	conf := mdConfig(c, ver, retryMax)
 	for k := range mc.Steps {
 		step := &mc.Steps[k]
+		live, known := []string{}, []string{}
+		if cl != nil {
+			live, known = mdPeek(c, cl)
+		}
+		if mc.Fam == "cref" && step.Head != "" && len(live) > 0 && live[0] != step.Head {
+			// the seeds are interchangeable: the model's head seed plays the real client's head seed
+			step = mdSwapSeeds(step)
+		}
 		modes, modeNames := mdModes(step)
 		c.setWorld(&step.World)
 		c.setModes(modes)
 		ev := kv{"ev": "step", "k": k, "mut": step.Mut, "req": append([]string{}, step.Req...),
-			"down": append([]string{}, step.Down...), "modes": modeNames, "r0": 0, "r1": 0, "conc": []interface{}{}, "nconc": 0}
+			"down": append([]string{}, step.Down...), "modes": modeNames, "r0": 0, "r1": 0, "conc": []interface{}{}, "nconc": 0,
+			"live": live, "known": known, "hold": step.Hold, "nref": 1, "retry": retryMax}
 		var err error
+		var results []string
 		if k == 0 {
 			cl, err = NewClient([]string{c.addr["s1"], c.addr["s2"]}, conf)
 			if err != nil {
@@ -134,10 +194,43 @@ func mdRunCase(c *mdCluster, idx int, mc *mdCase, ver string, st *mdStats) (even
 			st.concReads += n
 			st.concKept += len(conc)
 			st.mu.Unlock()
+		} else if mc.Fam == "cref" {
+			// NRef goroutines call RefreshMetadata at once; the failure of the head candidate is held
+			// until all of them have a request in flight on it
+			n := mc.Nref
+			if n < 1 {
+				n = 1
+			}
+			ev["nref"] = n
+			c.setHold(step.Hold, n)
+			errs := make([]error, n)
+			start := make(chan struct{})
+			var wg sync.WaitGroup
+			for g := 0; g < n; g++ {
+				wg.Add(1)
+				go func(g int) {
+					defer wg.Done()
+					<-start
+					errs[g] = cl.RefreshMetadata(step.Req...)
+				}(g)
+			}
+			close(start)
+			wg.Wait()
+			c.setHold("", 0)
+			for _, e := range errs {
+				results = append(results, mdResult(e))
+				if e != nil && err == nil {
+					err = e
+				}
+			}
 		} else {
 			err = cl.RefreshMetadata(step.Req...)
 		}
 		c.setModes(map[string]int{}) // everybody reachable again for the reads
+		if results == nil {
+			results = []string{mdResult(err)}
+		}
+		ev["results"] = results
 		ev["result"] = mdResult(err)
 		ev["created"] = cl != nil
 		// distinct responses of this step are logged once (resps), serves are 1-based indexes into it
